@@ -1,15 +1,16 @@
 #!/bin/bash
-# like seedtest.sh but applies the change to the scratch worktree /tmp/wt (VERIF_REPO) instead of /repo
+# like seedtest.sh but applies the change to the scratch worktree $WT (VERIF_REPO) instead of /repo
+WT=${WT:-/tmp/wt}
 PATCH=$(readlink -f "$1"); TIER=$2; shift 2
 cd /verif; mkdir -p .build/seedtest
-git -C /tmp/wt checkout -q -- . ; git -C /tmp/wt apply "$PATCH" || { echo "patch does not apply"; exit 3; }
-name=$(basename $(dirname $(dirname "$PATCH")))-$(basename "$PATCH" .diff)
+git -C $WT checkout -q -- . ; git -C $WT apply "$PATCH" || { echo "patch does not apply"; exit 3; }
+name=$(basename $(dirname "$PATCH"))-$(basename "$PATCH" .diff)
 for id in "$@"; do
   mkdir -p .build/seedtest/ev; cp evidence/$id.json .build/seedtest/ev/ 2>/dev/null
   t0=$(date +%s)
-  VERIF_REPO=/tmp/wt VERIF_SEED=${VERIF_SEED:-1} ./check $id $TIER > .build/seedtest/$name.$id.wt.log 2>&1; rc=$?
+  VERIF_REPO=$WT VERIF_SEED=${VERIF_SEED:-1} ./check $id $TIER > .build/seedtest/$name.$id.wt.log 2>&1; rc=$?
   cp .build/seedtest/ev/$id.json evidence/ 2>/dev/null
   case $rc in 1) r=DETECTED;; 0) r=missed;; *) r=inconclusive;; esac
   echo "$name $id $r (rc=$rc, $(( $(date +%s)-t0 ))s) $(grep -m1 -o 'VIOLATION C[0-9][0-9] .*' .build/seedtest/$name.$id.wt.log | cut -c1-220)"
 done
-git -C /tmp/wt checkout -q -- .
+git -C $WT checkout -q -- .
